@@ -28,35 +28,40 @@ theorem fields_classified :
     fieldsOf .cfgStartupOnly =
       [.kbd_in_paths, .continue_if_no_devices, .include_names, .exclude_names, .x11_repeat_rate,
        .device_detect_mode, .allow_hardware_repeat] ∧
-    fieldsOf .runtimeReset = [.prev_layer, .live_reload_requested, .macro_on_press_cancel_duration] ∧
-    fieldsOf .runtimeRetained =
-      [.cur_keys, .prev_keys, .scroll_state, .hscroll_state, .move_mouse_state_vertical,
-       .move_mouse_state_horizontal, .move_mouse_speed_modifiers, .sequence_state, .dynamic_macros,
-       .dynamic_macro_replay_state, .dynamic_macro_record_state, .override_states, .caps_word,
-       .waiting_for_idle, .vkeys_pending_release, .ticks_since_idle, .movemouse_buffer,
-       .unmodded_keys, .unmodded_mods, .unshifted_keys, .last_pressed_key, .saved_clipboard_content] ∧
+    fieldsOf .runtimeReset =
+      [.prev_layer, .scroll_state, .hscroll_state, .move_mouse_state_vertical,
+       .move_mouse_state_horizontal, .move_mouse_speed_modifiers, .sequence_state,
+       .dynamic_macro_replay_state, .dynamic_macro_record_state, .override_states,
+       .live_reload_requested, .caps_word, .waiting_for_idle, .vkeys_pending_release,
+       .ticks_since_idle, .movemouse_buffer, .unmodded_keys, .unmodded_mods, .unshifted_keys,
+       .last_pressed_key, .macro_on_press_cancel_duration] ∧
+    fieldsOf .runtimeRetained = [.cur_keys, .prev_keys, .dynamic_macros, .saved_clipboard_content] ∧
     fieldsOf .infrastructure =
       [.kbd_out, .cfg_paths, .cur_cfg_idx, .last_tick, .time_remainder, .tcp_server_address] := by
   refine ⟨fun f => by cases f <;> decide, by decide, by decide, by decide, by decide, by decide, by decide⟩
 
-/-- **steps_all_known**: the translator understood every statement of `do_live_reload`; the two
-assignments whose right-hand side is not derived from `cfg` are the two the model gives a meaning
-to; `do_live_reload` starts by parsing. -/
+/-- **steps_all_known**: the translator understood every statement of `do_live_reload`;
+`do_live_reload` starts by parsing; the helper methods it calls write no field of the struct; and
+every assignment whose right-hand side is not derived from `cfg` is either
+`self.prev_layer = cur_layer` or stores, textually, the very expression both constructors store in
+that field (which is what `resetVal` models). -/
 theorem steps_all_known :
-    reloadSteps.all stepKnown = true ∧ reloadSteps.head? = some .parse ∧
-    reloadResetRhs = [(.prev_layer, "cur_layer"), (.macro_on_press_cancel_duration, "0")] := by
-  refine ⟨by decide, by decide, by decide⟩
+    reloadSteps.all stepKnown = true ∧ reloadSteps.head? = some .parse ∧ effectWrites = [] ∧
+    reloadResetRhs.all (fun x => x == (.prev_layer, "cur_layer") ||
+      ctorConstRhs.lookup x.1 == some (x.2, x.2)) = true := by
+  refine ⟨by decide, by decide, by decide, by decide⟩
 
 /-- **reload_covers_cfg_derived**.  Every field whose value is computed from the configuration and
 used while keys are processed is re-assigned from the new `cfg` by `do_live_reload` — and from
-nothing else; conversely `do_live_reload` assigns from `cfg` only such fields, and the only other
-assignments are the two resets.  (Forgetting `self.overrides = cfg.overrides` changes
-`Gen.Reload.reloadSteps` and this theorem no longer checks.) -/
+nothing else; conversely `do_live_reload` assigns from `cfg` only such fields; and the fields it
+assigns from anything else are exactly the run-time state classified as reset on reload (the request
+flag is cleared by `handle_time_ticks` just before the call).  (Forgetting
+`self.overrides = cfg.overrides` changes `Gen.Reload.reloadSteps` and this theorem no longer checks.) -/
 theorem reload_covers_cfg_derived :
     (∀ f, classify f = .cfgDerived → cfgOnly reloadSteps f = true) ∧
     (∀ f, f ∈ assignedFromCfg reloadSteps → classify f = .cfgDerived) ∧
-    assignedReset reloadSteps = [.prev_layer, .macro_on_press_cancel_duration] := by
-  refine ⟨fun f => by cases f <;> decide, fun f => by cases f <;> decide, by decide⟩
+    (∀ f, f ∈ assignedReset reloadSteps ↔ (classify f = .runtimeReset ∧ f ≠ .live_reload_requested)) := by
+  refine ⟨fun f => by cases f <;> decide, fun f => by cases f <;> decide, fun f => by cases f <;> decide⟩
 
 /-- **ctor_cfg_fields**.  The fields a constructor computes from `cfg` are exactly the
 configuration-derived ones plus the start-up-only ones; both constructors initialise every field in
@@ -87,7 +92,9 @@ theorem write_sites_as_modelled :
        ("macro_on_press_cancel_duration", "tick_states"), ("prev_keys", "handle_keystate_changes"),
        ("prev_keys", "tick_states"), ("prev_layer", "check_handle_layer_change"),
        ("prev_layer", "do_live_reload"), ("ticks_since_idle", "can_block_update_idle_waiting"),
+       ("ticks_since_idle", "do_live_reload"),
        ("ticks_since_idle", "handle_input_event"), ("ticks_since_idle", "handle_keystate_changes"),
+       ("waiting_for_idle", "do_live_reload"),
        ("waiting_for_idle", "handle_keystate_changes"), ("waiting_for_idle", "tick_idle_timeout")] ∧
     touchSites =
       [("cfg_paths", "do_live_reload"), ("cfg_paths", "handle_keystate_changes"),
@@ -96,6 +103,7 @@ theorem write_sites_as_modelled :
        ("live_reload_requested", "handle_time_ticks"), ("live_reload_requested", "is_idle"),
        ("live_reload_requested", "tick_states"), ("prev_layer", "check_handle_layer_change"),
        ("prev_layer", "do_live_reload"), ("ticks_since_idle", "can_block_update_idle_waiting"),
+       ("ticks_since_idle", "do_live_reload"),
        ("ticks_since_idle", "handle_input_event"), ("ticks_since_idle", "handle_keystate_changes"),
        ("ticks_since_idle", "handle_time_ticks"), ("ticks_since_idle", "tick_idle_timeout")] := by
   refine ⟨by decide, by decide⟩
@@ -145,38 +153,24 @@ theorem reload_fail_run_equiv (hB : Blind W) (script : List (Tick W.toTypes)) (m
   obtain ⟨s'', h1, h2⟩ := sim_runNB hB script msPrev h0 hfail s' out h
   exact ⟨s'', h1, h2.agree, h2.breq⟩
 
-/-- the fallible calls that `do_live_reload` makes after it has started to overwrite fields -/
-def lateFallibles : List String :=
-  falliblesOf (reloadSteps.dropWhile fun | .assign _ _ => false | _ => true)
+/-- the fallible calls that `do_live_reload` makes after it has started to overwrite fields: none -/
+def lateFallibles : List String := lateFalliblesOf reloadSteps
 
-/-- **reload_atomic_partial**.  FULL STATEMENT WANTED: whenever `do_live_reload` reports failure the
-state is unchanged and nothing was sent.  PROVED: this holds provided the calls in `lateFallibles`
-(on Linux: `Kanata::set_repeat_rate`, i.e. spawning `xset` when `linux-x11-repeat-delay-rate` is
-configured) do not fail.  The hypothesis cannot be dropped: `reload_not_atomic_counterexample`. -/
-theorem reload_atomic_partial (env : Env W.toTypes) (s : KSt W) (r : RRes W.toTypes)
-    (hlate : ∀ callee ∈ lateFallibles, ∀ c, env.callFails callee c = false)
+/-- **reload_atomic** (full).  Whenever `do_live_reload` reports failure — the file does not load,
+`update_kbd_out` fails, `xset` cannot be spawned — the `Kanata` value is equal to what it was, every
+field and both global stores, and nothing was sent to the clients: every call that can fail precedes
+the first assignment (`lateFallibles = []`).  Until the fix that moved `Kanata::set_repeat_rate` up
+this was false: `reload_not_atomic_counterexample` (about the statement list as it was). -/
+theorem reload_atomic (env : Env W.toTypes) (s : KSt W) (r : RRes W.toTypes)
     (h : doLiveReload env s = .ok r) (hr : r.ok = false) : r.st = s ∧ r.msgs = [] := by
-  unfold doLiveReload doLiveReloadWith at h
-  have hs : reloadSteps = .parse :: .fallible "update_kbd_out" :: (reloadSteps.drop 2) := by decide
-  rw [hs] at h
-  simp only at h
-  split at h
-  · simp at h
-  · split at h
-    · simp at h; subst h; exact ⟨rfl, rfl⟩
-    · rename_i c _
-      rw [runSteps] at h
-      simp only [stepOne] at h
-      by_cases hc : env.callFails "update_kbd_out" c = true
-      · simp [hc] at h; subst h; exact ⟨rfl, rfl⟩
-      · simp [hc] at h
-        have hl : ∀ callee ∈ falliblesOf (reloadSteps.drop 2), env.callFails callee c = false := by
-          intro callee hm
-          exact hlate callee (by revert hm; revert callee; decide) c
-        have := runSteps_ok env c _ _ _ _ r h hl
-        simp [hr] at this
+  have hshape : reloadSteps = .parse :: (reloadSteps.tail.takeWhile isFallible ++
+      reloadSteps.tail.dropWhile isFallible) := by decide
+  unfold doLiveReload at h
+  rw [hshape] at h
+  exact doLiveReloadWith_atomic _ _ (by decide) (by decide) env s r h hr
 
-example : lateFallibles = ["Kanata::set_repeat_rate"] := by decide
+example : lateFallibles = [] ∧ falliblesOf reloadSteps = ["update_kbd_out", "Kanata::set_repeat_rate"] := by
+  decide
 
 /-! ## 3. Success is a restart -/
 
@@ -229,7 +223,7 @@ theorem reload_success_form (env : Env W.toTypes) (s : KSt W) (r : RRes W.toType
 /-- **reload_notifies_once** (full).  A reload that succeeds with a client channel sends exactly two
 messages, in this order: `ConfigFileReload` with the path that was loaded and `LayerChange` with the
 name — taken from the NEW `layer_info` — of the layer the new layout starts on.  A reload that fails
-sends nothing (`reload_atomic_partial`), and afterwards `prev_layer` equals the current layer, so
+sends nothing (`reload_atomic`), and afterwards `prev_layer` equals the current layer, so
 `check_handle_layer_change` does not announce that layer a second time. -/
 theorem reload_notifies_once (env : Env W.toTypes) (s : KSt W) (r : RRes W.toTypes) (htx : env.tx = true)
     (h : doLiveReload env s = .ok r) (hok : r.ok = true) :
@@ -243,8 +237,8 @@ theorem reload_notifies_once (env : Env W.toTypes) (s : KSt W) (r : RRes W.toTyp
   intro s' m hcl
   refine (checkLayerChange_spec _ _ _ _ hcl).2.1 ?_
   rw [hst]
-  have k3 := (silent_keeps c s).2.2.1
-  simp [reloaded, St.set_other, k3]
+  obtain ⟨_, _, r3, _, r5⟩ := reloaded_keeps c s
+  rw [r3, r5]
 
 /-- the closed form of a complete reload is the restart state, when the retained run-time fields are
 initial -/
@@ -254,19 +248,12 @@ theorem reloaded_eq_restartState (hW : FreshLayer0 W) (c : W.Cfg) (s : KSt W)
   apply St.ext'
   intro f
   have hctor := ctor_cfg_fields.2.1 f
-  by_cases hm : f = .macro_on_press_cancel_duration
-  · subst hm
-    have hk : ctorNew.lookup .macro_on_press_cancel_duration = some false := by decide
-    simp [reloaded, restartState, classify, freshAt, constVal, hk]
-  by_cases hl : f = .prev_layer
-  · subst hl
-    have hk : ctorNew.lookup .prev_layer = some false := by decide
-    simp [reloaded, restartState, classify, freshAt, constVal, St.set_other, hW c, hk]
-  have hL : (reloaded c s) f = (applyCfg c silentPart s) f := by
-    simp only [reloaded]
-    rw [St.set_other _ _ _ _ hm, St.set_other _ _ _ _ hl]
-  rw [hL, applyCfg_get]
-  simp only [silent_assigns]
+  have hreset := reload_covers_cfg_derived.2.2 f
+  have hrp : f ∈ assignedReset resetPart ↔ f ∈ assignedReset reloadSteps := by
+    revert f; intro f _ _; cases f <;> decide
+  simp only [reloaded]
+  rw [applyReset_get, applyCfg_get]
+  simp only [silent_assigns, hrp, hreset]
   cases hcl : classify f with
   | cfgDerived =>
     have hne : f ≠ .prev_keys := by intro e; subst e; simp [classify] at hcl
@@ -275,11 +262,28 @@ theorem reloaded_eq_restartState (hW : FreshLayer0 W) (c : W.Cfg) (s : KSt W)
   | cfgStartupOnly => simp [restartState, hcl]
   | infrastructure => simp [restartState, hcl]
   | runtimeReset =>
-    have : f = .live_reload_requested := by
-      revert hcl hm hl; cases f <;> simp [classify]
-    subst this
-    have hk : ctorNew.lookup .live_reload_requested = some false := by decide
-    simp [restartState, classify, freshAt, constVal, hreq, hk]
+    have hlk : ctorNew.lookup f ≠ some true := by
+      intro e
+      rcases hctor.1 e with e1 | e1 <;> simp [hcl] at e1
+    have hpk : f ≠ .prev_keys := by intro e; subst e; simp [classify] at hcl
+    have h1 : f ≠ .cfg_paths := by intro e; subst e; simp [classify] at hcl
+    have h2 : f ≠ .cur_cfg_idx := by intro e; subst e; simp [classify] at hcl
+    have hR : (restartState s c) f = typedInit W f := by
+      simp only [restartState, hcl, hpk, if_false, freshAt]
+      first
+        | exact constVal_eq _ _ f h1 h2
+        | (split
+           · rename_i e; exact absurd e hlk
+           · exact constVal_eq _ _ f h1 h2)
+    rw [hR]
+    by_cases hq : f = .live_reload_requested
+    · subst hq
+      simp [hreq, typedInit]
+    · simp only [hq, ne_eq, not_false_eq_true, and_self, if_true]
+      by_cases hl : f = .prev_layer
+      · subst hl
+        simp [resetVal, typedInit, hW c]
+      · exact resetVal_eq _ f hl
   | runtimeRetained =>
     by_cases hpk : f = .prev_keys
     · subst hpk; simp [restartState, classify]
@@ -295,10 +299,12 @@ theorem reloaded_eq_restartState (hW : FreshLayer0 W) (c : W.Cfg) (s : KSt W)
 state of a freshly started instance of the new configuration.  PROVED: the state after a successful
 reload EQUALS (every field, both global stores) the restart state — a fresh instance of the new
 configuration positioned on the same command line, keeping the plumbing, the start-up-only settings and
-`prev_keys` — PROVIDED the run-time fields that `do_live_reload` does not reset are in their initial
-condition (`retainedFieldsInitial`: exactly the 21 `runtimeRetained` fields other than `prev_keys`)
-and a freshly built layout starts on layer 0.  State equality makes every later step identical.
-What is missing: kanata does not establish `retainedFieldsInitial` — see the counterexample. -/
+`prev_keys` — PROVIDED the three run-time fields that `do_live_reload` still does not reset are in
+their initial condition (`retainedFieldsInitial`: the `runtimeRetained` fields other than `prev_keys`,
+i.e. `cur_keys` — empty whenever `handle_time_ticks` gets to the reload, `reload_deferral` — and
+`dynamic_macros`, `saved_clipboard_content`: what the user recorded or saved, kept on purpose) and a
+freshly built layout starts on layer 0.  State equality makes every later step identical.
+Before the stale-state fix 21 fields were in this hypothesis: `reload_fresh_equiv_counterexample`. -/
 theorem reload_fresh_equiv_partial (hW : FreshLayer0 W) (env : Env W.toTypes) (s : KSt W) (r : RRes W.toTypes)
     (h : doLiveReload env s = .ok r) (hok : r.ok = true)
     (hreq : s .live_reload_requested = false) (hret : retainedFieldsInitial s) :
@@ -307,13 +313,26 @@ theorem reload_fresh_equiv_partial (hW : FreshLayer0 W) (env : Env W.toTypes) (s
   obtain ⟨p, c, hp, hc, hst, _, _⟩ := reload_success_form env s r h hok
   exact ⟨p, c, hp, hc, by rw [hst]; exact reloaded_eq_restartState hW c s hreq hret⟩
 
+/-- what `retainedFieldsInitial` asks for, field by field -/
+theorem retainedFieldsInitial_iff (s : KSt W) :
+    retainedFieldsInitial s ↔
+      (s .cur_keys = ([] : List Nat) ∧ s .dynamic_macros = W.init0 .dynamic_macros ∧
+       s .saved_clipboard_content = W.init0 .saved_clipboard_content) := by
+  constructor
+  · intro h
+    exact ⟨h .cur_keys rfl (by decide), h .dynamic_macros rfl (by decide),
+      h .saved_clipboard_content rfl (by decide)⟩
+  · rintro ⟨h1, h2, h3⟩ f hcl hpk
+    revert hcl hpk
+    cases f <;> simp [classify] <;> first | exact h1 | exact h2 | exact h3
+
 /-- **reload_eq_restart_partial**: the whole of `do_live_reload` — result, state, notifications,
-crashes — coincides with the all-or-nothing restart specification `restartReload` (the specification
-the correspondence check runs against the real code), under the hypotheses of the two partial
-theorems: retained run-time fields initial, and the late fallible call (`xset`) not failing. -/
+crashes, every way of failing — coincides with the all-or-nothing restart specification
+`restartReload` (the specification the correspondence check runs against the real code), provided
+the three retained fields are initial (see `reload_fresh_equiv_partial`).  No hypothesis about `xset`
+any more. -/
 theorem reload_eq_restart_partial (hW : FreshLayer0 W) (env : Env W.toTypes) (s : KSt W)
-    (hreq : s .live_reload_requested = false) (hret : retainedFieldsInitial s)
-    (hlate : ∀ callee ∈ lateFallibles, ∀ c, env.callFails callee c = false) :
+    (hreq : s .live_reload_requested = false) (hret : retainedFieldsInitial s) :
     doLiveReload env s = restartReload env s := by
   unfold restartReload
   cases hp : (s .cfg_paths : List Nat)[(s .cur_cfg_idx : Nat)]? with
@@ -327,22 +346,30 @@ theorem reload_eq_restart_partial (hW : FreshLayer0 W) (env : Env W.toTypes) (s 
     | none => simp only; exact doLiveReload_fail env s p hp hc
     | some c =>
       simp only
-      have hfl : falliblesOf reloadSteps = ["update_kbd_out", "Kanata::set_repeat_rate"] := by decide
-      have h2 : env.callFails "Kanata::set_repeat_rate" c = false := hlate _ (by decide) c
-      by_cases h1 : env.callFails "update_kbd_out" c = true
-      · have : (falliblesOf reloadSteps).any (fun callee => env.callFails callee c) = true := by
-          simp [hfl, h1]
-        rw [if_pos this]
+      by_cases hany : (falliblesOf reloadSteps).any (fun callee => env.callFails callee c) = true
+      · rw [if_pos hany]
+        have hshape : reloadSteps = .parse :: (reloadSteps.tail.takeWhile isFallible ++
+            reloadSteps.tail.dropWhile isFallible) := by decide
+        have hF : (reloadSteps.tail.takeWhile isFallible).all isFallible = true := by decide
+        have hall : falliblesOf (reloadSteps.tail.takeWhile isFallible) = falliblesOf reloadSteps := by decide
         unfold doLiveReload doLiveReloadWith
-        have hs : reloadSteps = .parse :: .fallible "update_kbd_out" :: (reloadSteps.drop 2) := by decide
-        rw [hs]
-        simp [hp, hc, runSteps, stepOne, h1]
-      · have h1' : env.callFails "update_kbd_out" c = false := by simpa using h1
-        have : (falliblesOf reloadSteps).any (fun callee => env.callFails callee c) = false := by
-          simp [hfl, h1', h2]
-        rw [this]
-        simp only [Bool.false_eq_true, if_false]
-        rw [doLiveReload_success env s p c hp hc (by intro callee hm; rw [hfl] at hm; simp at hm; rcases hm with rfl | rfl <;> assumption)]
+        rw [hshape]
+        simp only [hp, hc]
+        rw [runSteps_append]
+        rcases runPrefix_fallibles env c _ none s [] hF with ⟨h1, _⟩ | ⟨h1, hnone⟩
+        · rw [h1]
+        · exfalso
+          rw [hall] at hnone
+          simp only [List.any_eq_true] at hany
+          obtain ⟨callee, hm, hf⟩ := hany
+          rw [hnone callee hm] at hf; cases hf
+      · have hnone : ∀ callee ∈ falliblesOf reloadSteps, env.callFails callee c = false := by
+          intro callee hm
+          cases hf : env.callFails callee c with
+          | false => rfl
+          | true => exact absurd (List.any_eq_true.2 ⟨callee, hm, hf⟩) hany
+        rw [if_neg hany]
+        rw [doLiveReload_success env s p c hp hc hnone]
         rw [reloaded_eq_restartState hW c s hreq hret]
         cases env.tx <;> rfl
 
@@ -625,32 +652,78 @@ example : ∃ r, handleTimeTicks (Mini.envOf (.ok Mini.cC)) 1
         { (Mini.initLayout Mini.cA) with states := [.normal 2 (0, 0)] }) = .ok r ∧
     r.attempt = none ∧ r.st .live_reload_requested = true := ⟨_, rfl, rfl, rfl⟩
 
-/-- **reload_not_atomic_counterexample**.  The new file parses but asks for an X11 repeat rate and
-`xset` cannot be spawned: `do_live_reload` returns an error ("live reload failed") AFTER it has
-replaced the layout and every other configuration-derived field.  The old configuration is gone,
-`ConfigFileReload` / `LayerChange` are never sent, `prev_layer` is not updated.  Reproduced on the
-real code (harness case `okx`). -/
+/-- `do_live_reload` as it was at /repo 678db6b, before the two fixes (regenerated list of that
+commit, kept here because the generated one follows the source): `Kanata::set_repeat_rate` runs
+after the assignments, and only `prev_layer` and `macro_on_press_cancel_duration` are reset. -/
+def pinnedSteps : List RStep := [
+  .parse,
+  .fallible "update_kbd_out",
+  .assign .sequence_backtrack_modcancel true,
+  .assign .sequence_always_on true,
+  .assign .sequence_input_mode true,
+  .assign .sequence_timeout true,
+  .assign .layout true,
+  .assign .key_outputs true,
+  .assign .layer_info true,
+  .assign .sequences true,
+  .assign .overrides true,
+  .assign .log_layer_changes true,
+  .assign .movemouse_smooth_diagonals true,
+  .assign .override_release_on_activation true,
+  .assign .movemouse_inherit_accel_state true,
+  .assign .dynamic_macro_max_presses true,
+  .assign .dynamic_macro_replay_behaviour true,
+  .assign .switch_max_key_timing true,
+  .assign .virtual_keys true,
+  .assign .G_ZCH true,
+  .assign .G_MAPPED_KEYS true,
+  .fallible "Kanata::set_repeat_rate",
+  .notify "ConfigFileReload",
+  .bindCurLayer,
+  .assign .prev_layer false,
+  .assign .macro_on_press_cancel_duration false,
+  .notify "LayerChange"
+]
+
+example : lateFalliblesOf pinnedSteps = ["Kanata::set_repeat_rate"] ∧
+    assignedReset pinnedSteps = [.prev_layer, .macro_on_press_cancel_duration] := by decide
+
+/-- **reload_not_atomic_counterexample** (about `pinnedSteps`, the code before the fix).  The new file
+parses but asks for an X11 repeat rate and `xset` cannot be spawned: `do_live_reload` returned an
+error ("live reload failed") AFTER it had replaced the layout and every other configuration-derived
+field.  The old configuration was gone, `ConfigFileReload` / `LayerChange` were never sent,
+`prev_layer` was not updated.  Reproduced on the real code of that commit (harness cases `okx`);
+with the fix `reload_atomic` holds with no hypothesis. -/
 theorem reload_not_atomic_counterexample :
-    ∃ r, doLiveReload (Mini.envOf (.ok Mini.cB)) (fresh (W := Mini.world) [0] Mini.cA) = .ok r ∧ r.ok = false ∧ r.msgs = [] ∧
+    ∃ r, doLiveReloadWith pinnedSteps (Mini.envOf (.ok Mini.cB)) (fresh (W := Mini.world) [0] Mini.cA) = .ok r ∧
+      r.ok = false ∧ r.msgs = [] ∧
       (r.st .layout : Mini.Layout).layers = Mini.cB.layers ∧
       (r.st .layout : Mini.Layout).layers ≠ ((fresh (W := Mini.world) [0] Mini.cA) .layout : Mini.Layout).layers :=
   ⟨_, rfl, rfl, rfl, rfl, by decide⟩
 
-/-- a state in which one retained field is not initial: `unmodded_keys = [5]` (reachable: hold an
-`(unmod …)` key, request the reload with another key, keep holding for a second — the idle fall-back
-fires because an `unmod` key has no `NormalKey` state) -/
+/-- the same input on the code as it is now: a clean failure, nothing changed -/
+example : doLiveReload (Mini.envOf (.ok Mini.cB)) (fresh (W := Mini.world) [0] Mini.cA) =
+    .ok ⟨fresh (W := Mini.world) [0] Mini.cA, [], false⟩ := rfl
+
+/-- a state in which a run-time field that used to be retained is not initial: `unmodded_keys = [5]`
+(reachable: hold an `(unmod …)` key, request the reload with another key, keep holding for a second —
+the idle fall-back fires because an `unmod` key has no `NormalKey` state) -/
 def Mini.sU : KSt Mini.world := (fresh (W := Mini.world) [0] Mini.cA).set .unmodded_keys ([5] : List Nat)
 
-/-- **reload_fresh_equiv_counterexample**.  `retainedFieldsInitial` cannot be dropped from
-`reload_fresh_equiv_partial`: from `sU` the reload succeeds and notifies, yet the very next tick of
-the reloaded instance presses key 5 (and it stays pressed: nothing in the new layout will ever send
-the custom release that removes it from `unmodded_keys`), whereas the restarted instance emits
-nothing.  Reproduced on the real code (harness cases with `um`). -/
+/-- **reload_fresh_equiv_counterexample** (about `pinnedSteps`, the code before the fix).  From `sU`
+the reload succeeded and notified, yet the very next tick of the reloaded instance pressed key 5
+(and it stayed pressed: nothing in the new layout ever sends the custom release that removes it from
+`unmodded_keys`), whereas the restarted instance emits nothing.  Reproduced on the real code of that
+commit (harness cases with `um`). -/
 theorem reload_fresh_equiv_counterexample :
-    ∃ r, doLiveReload (Mini.envOf (.ok Mini.cC)) Mini.sU = .ok r ∧ r.ok = true ∧
+    ∃ r, doLiveReloadWith pinnedSteps (Mini.envOf (.ok Mini.cC)) Mini.sU = .ok r ∧ r.ok = true ∧
       (∃ s1, tickStates (W := Mini.world) r.st = .ok (s1, [Mini.Os.down 5])) ∧
       (∃ s2, tickStates (W := Mini.world) (restartState Mini.sU Mini.cC) = .ok (s2, [])) :=
   ⟨_, rfl, rfl, ⟨_, rfl⟩, ⟨_, rfl⟩⟩
+
+/-- the same input on the code as it is now: the reloaded instance is silent too -/
+example : ∃ r, doLiveReload (Mini.envOf (.ok Mini.cC)) Mini.sU = .ok r ∧ r.ok = true ∧
+    (∃ s1, tickStates (W := Mini.world) r.st = .ok (s1, [])) := ⟨_, rfl, rfl, ⟨_, rfl⟩⟩
 
 /-- non-vacuity of `Blind`: the concrete world of the correspondence check satisfies it -/
 theorem blind_mini_world : Blind Mini.world := by
